@@ -608,6 +608,14 @@ def check_error_contract(rep, rule, prog, units, floor):
         j, bad = 0, []
         for fn in sorted(u.functions.values(), key=lambda f: f.loc[0]):
             a, b = error_paths_fail(fn)
+            if b:
+                # `return helper (obj, val == 0);` - what a static helper hands back is judged with the helper folded in
+                try:
+                    a2, b2 = error_paths_fail(fn.inlined())
+                    if a2 >= 1:
+                        a, b = a2, b2
+                except AnalysisBroken:
+                    pass
             j += a
             bad += [(fn,) + x for x in b]
         total += j
